@@ -4,10 +4,10 @@ from . import common, refine, vocab, render, sig
 from .common import log
 
 SMALL_FAMS = ("F3a", "F3b", "F3c", "F4")
-ALL_FAMS = ["F1a", "F1b", "F1c", "F1d", "F1e", "F1f", "F1g", "F2a", "F2b", "F2c", "F2z", "F2s", "F3a", "F3b", "F3c", "F4", "F5a", "F5b", "F5c", "F7a", "F7b", "F7c", "F8", "F9", "FW"]
+ALL_FAMS = ["F1a", "F1b", "F1c", "F1d", "F1e", "F1f", "F1g", "F2a", "F2b", "F2c", "F2z", "F2s", "F3a", "F3b", "F3c", "F4", "F5a", "F5b", "F5c", "F7a", "F7b", "F7c", "F8", "F8g", "F9", "FL", "FW"]
 # quick-tier sample size per family (the thorough tier takes every program of every family)
 QUICK_N = {"F1a": 500, "F1b": 250, "F1c": 150, "F1d": 250, "F1e": 100, "F1f": 250, "F1g": 100, "F2a": 400, "F2z": 60, "F2s": 60, "F2b": 63,
-           "F2c": 120, "F3a": 150, "F3b": 80, "F3c": 12, "F4": 26, "F5a": 200, "F5b": 120, "F5c": 200, "F7a": 84, "F7b": 250, "F7c": 200, "F8": 400, "F9": 350, "FW": 10}
+           "F2c": 120, "F3a": 150, "F3b": 80, "F3c": 12, "F4": 26, "F5a": 200, "F5b": 120, "F5c": 200, "F7a": 84, "F7b": 250, "F7c": 200, "F8": 400, "F8g": 450, "F9": 350, "FL": 40, "FW": 10}
 
 
 def sample_programs(tier, fams=None, scale=1.0, name="gen"):
@@ -80,7 +80,7 @@ def c01(tier):
         vs = [dict(name="O1", args=["-O1"], src=src)]
         if i % 3 == 0:
             vs.append(dict(name="O0", args=["-O0"], src=src))
-        cases.append(dict(id=cid, fam=p["fam"], body=p["body"], fnames=fn, variants=vs))
+        cases.append(dict(id=cid, fam=p["fam"], body=p["body"], fnames=fn, variants=vs, locals=p.get("locals")))
         bodies[cid] = p["body"]
     pl = refine.Pipeline("c01", tier=tier)
     pl.run(cases, sem=True, pair=False, maxin=16 if tier == "quick" else 48, small_fams=SMALL_FAMS)
@@ -115,12 +115,12 @@ def c02(tier):
         fn = sorted(render.calls_in(p["body"]))
         src = vocab.source(p["body"], fn)
         cid = "%s-%05d" % (p["fam"], i)
-        cases.append(dict(id=cid, fam=p["fam"], body=p["body"], fnames=fn,
+        cases.append(dict(id=cid, fam=p["fam"], body=p["body"], fnames=fn, locals=p.get("locals"),
                           variants=[dict(name="O0", args=["-O0"], src=src), dict(name="O1", args=["-O1"], src=src),
                                     dict(name="O2", args=["-O2"], src=src), dict(name="O3", args=["-O3"], src=src)]))
         bodies[cid] = p["body"]
     pl = refine.Pipeline("c02", tier=tier)
-    pl.run(cases, sem=False, pair=True, maxin=16 if tier == "quick" else 48, small_fams=SMALL_FAMS)
+    pl.run(cases, sem=False, pair=True, maxin=16 if tier == "quick" else 48, small_fams=SMALL_FAMS, defined_only=True)
     nbad = judge(pl, verdict, pid, finding_signatures(pid), bodies)
     st = pl.stats
     if st["programs"] - st["rejected"] - st["crashed"] - st["linkerr"] < 10:
